@@ -258,6 +258,13 @@ def late_item_overtakes(deb, maxw, n, t0, t1, t2, k0, k1, k2) -> bool:
     return False
 
 
+class _Opaque:
+    __slots__ = ("i",)
+
+    def __init__(self, i) -> None:
+        self.i = i
+
+
 def _debounce_scenario(deb, maxw, n, ts, keys, order) -> bool:
     loop = SymLoop()
     out = []
@@ -267,11 +274,11 @@ def _debounce_scenario(deb, maxw, n, ts, keys, order) -> bool:
         for i in range(n):
             await asyncio.sleep(ts[i] - prev)
             prev = ts[i]
-            yield i
+            yield _Opaque(i)     # items are opaque records (the real caller sorts log-event models): only their KEYS are comparable
 
     async def main():
-        async for it in iu.debounced_sorted_prefix(inner(), key=lambda i: keys[i], debounce_seconds=deb, max_window_seconds=maxw):
-            out.append(it)
+        async for it in iu.debounced_sorted_prefix(inner(), key=lambda o: keys[o.i], debounce_seconds=deb, max_window_seconds=maxw):
+            out.append(it.i)
 
     with _Patched(order):
         loop.run_until_complete(main())
